@@ -229,13 +229,16 @@ CLAIMED = {
             "Operators are abstract records (map_wires, measure(reset=True) assumed); 'same results as a fresh wire per "
             "allocation' needs a simulator and is not covered. F26 fixed in repo.",
             "DESIGN.md 4 C22", "E1"),
-    "C23": ("other",
+    "C23": ("proof",
             "sidecar contracts on core/transforms/compile_pipeline.py (+ the real BoundTransform accessors): (A) __call_tapes, "
             "_batch_postprocessing and _apply_postprocessing_stack executed from their ASTs with UNINTERPRETED tape transforms "
             "and post-processing functions for every enumerated fan-out table; the returned post-processing function, applied "
             "(twice) to symbolic results, equals the by-hand stage-by-stage composition (EUF, z3); (B) the list API executed on "
             "pipelines of enumerated shapes with symbolic marker levels / indices against the python-list model with markers as "
             "separators, exceptional postconditions for state-unchanged-on-error; counter-models replayed on real pipelines",
+            "One stage with a batch of SYMBOLIC size and SYMBOLIC fan-out per circuit (no bound): the inner loop of __call_tapes, cut "
+            "from the real AST, keeps the slices the contiguous ordered partition of the produced circuits with fns[k] the k-th "
+            "circuit's post-processing function (snoc-defined predicate + base/step lemmas). "
             "Routing for 61 fan-out tables (1-3 stages, batches of 1-3 circuits, fan-out 0-3 incl. dropped circuits): results "
             "reach exactly the post-processing function of the circuit that produced them, in input order, and the function "
             "is re-usable. List API on 11 pipeline shapes (plain, equal, expand-carrying, terminal elements) x marker sets: "
